@@ -34,6 +34,7 @@ EXPLANATION = (
     ' read_setting(id) for a known id returns the awaited read of exactly that setting.'
     ' (R5, shared with C16.R1) the single read behind read_setting requests ceil(size_/2) registers at the setting and decodes the answer from its first byte.'
     ' (R6) ES._read_setting / _write_setting build Modbus commands exactly on the paths where _is_modbus_setting(setting) is true and AA55 commands on the others.'
+    ' (R7) no path of write_setting / _write_setting on which a request of the write raised (refused, unanswered) ends in a normal return.'
 )
 
 
@@ -68,6 +69,7 @@ def check(ctx: Ctx, rep: Report):
     rep.rule("C17.R1", "encoder and decoder of every setting type agree (width, byte order, signedness, scale, register half, field order)", 10)
     rep.rule("C17.R2", "_write_setting builds exactly one write to setting.offset carrying the encoding; one-byte settings are read-modify-written", 12)
     rep.rule("C17.R3", "unknown setting ids never write", 3)
+    r7_failures_surface(ctx, rep)
     prog = ctx.prog
     tabs, dec = tables_ctx(ctx), decoders_ctx(ctx)
     sensor = prog.cls("Sensor")
@@ -635,3 +637,47 @@ def r2(ctx: Ctx, rep: Report):
         for f2 in seen_fns:
             for call in [n for n in ast.walk(f2.node) if isinstance(n, ast.Call) and wire.site_kind(f2, n) is not None and wire.site_kind(f2, n)[0] != "read"]:
                 rep.ok("C17.R2", "site:%s:%s" % (famname, norm(call)[:50]), f2.loc(call), "write site addressed to %s" % norm(call.args[0]))
+
+
+def r7_failures_surface(ctx: Ctx, rep: Report):
+    """'After write_setting succeeds ...': a write the inverter refused, or that never got an answer, must not look
+    like a success.  On every path of write_setting / _write_setting on which an awaited request of the write
+    (the preliminary read of a one-byte setting, the write itself, the nested _write_setting) raised, the function
+    ends by raising - no handler turns the failure into a normal return."""
+    from ..paths import enumerate_paths
+    prog = ctx.prog
+    rejected, failed = prog.cls("RequestRejectedException"), prog.cls("RequestFailedException")
+    rep.rule("C17.R7", "a refused or unanswered write never looks like a success: no path of write_setting / _write_setting on which a request of the write raised ends in a normal return", 6)
+
+    def oracle(node, fn):
+        if isinstance(node, ast.Await) and isinstance(node.value, ast.Call):
+            c = call_chain(node.value) or ()
+            if c and c[0] == "self" and c[-1] in ("_write_setting", "_read_from_socket", "write_setting"):
+                return [rejected, failed]
+        return []
+
+    n = 0
+    for fam in ("ET", "DT", "ES"):
+        ci = prog.cls(fam)
+        for mname in ("write_setting", "_write_setting"):
+            m = ci.methods.get(mname)
+            if m is None:
+                continue
+            n += 1
+            rep.analysed_add("functions", m.qualname)
+            bad = None
+            npaths = 0
+            for p in enumerate_paths(prog, m, oracle):
+                raised = [ev for ev in p.events if ev.kind == "raise" and isinstance(ev.node, ast.Await)]
+                if not raised:
+                    continue
+                npaths += 1
+                if p.end != "raise" and bad is None:
+                    bad = (p, raised[0])
+            rep.check(bad is None and npaths > 0, "C17.R7", "failure-surfaces:%s.%s" % (fam, mname), m.loc(),
+                      "%s.%s: every path on which a request of the write failed ends by raising (%d paths)" % (fam, mname, npaths),
+                      bad=("%s.%s: %s failed (%s) and the function still returns normally: the caller sees a successful write although nothing - or nothing confirmed - was "
+                           "written [path %s]" % (fam, mname, norm(bad[1].node)[:50], getattr(bad[1].data, "name", bad[1].data), bad[0].describe(8))) if bad else
+                          "%s.%s: no awaited request found to judge" % (fam, mname))
+    if n < 6:
+        raise AnalysisError("only %d write functions found (write_setting / _write_setting of ET, DT, ES)" % n)
